@@ -18,7 +18,7 @@ func init() {
 		ID: "C02",
 		Rule: "grid phase: case = one polygonal geometry (1-2 polygons x 1-3 rings of 0-7 unfiltered vertices on the half-integer grid {0,.5,..,4}^2: self-intersecting, collinear, repeated-vertex, clockwise, unclosed and closed rings all occur; also *Bounds; 30% of the polygonals are handed over with their rings laid out as consecutive sub-slices of one backing array while the oracle reads a separately allocated copy) and all 81 grid points judged by an exact integer/rational crossing-number + on-segment oracle, plus MultiPoint/LineString/MultiLineString/Polygon receivers (random vertices, and each member polygon of the polygonal itself, same or copied storage); " +
 			"float phase: star and random-walk float polygons with margin points judged by the same rule in exact rational arithmetic; enumerate phase (thorough): every ordered triangle and quadrilateral on the 4x4 integer grid, closed and unclosed, against all 49 half-grid points; " +
-			"an evaluation is one (point, geometry) classification; non-trivial = geometry for which at least one OnEdge and one Inside answer were produced; distinct by content hash",
+			"far_vertex phase: rings of 2-5 ordinary half-integer vertices and 1-2 vertices 2^54..1e300 away, queried at ordinary half-integer points, the ordinary vertices and points exactly on axis-parallel far edges (points within 1e-6 of, but not on, an edge with a far end are not judged); an evaluation is one (point, geometry) classification; non-trivial = geometry for which at least one OnEdge and one Inside answer were produced; distinct by content hash",
 		Assumptions: []string{"a ring counts when it stores >= 3 vertices (closing vertex included), as the implementation documents", "float phase judges only points with margin >= 1e-9*diameter from every edge"},
 		Phases: []core.Phase{
 			{Name: "grid", NumCases: func(t string) int {
@@ -39,6 +39,12 @@ func init() {
 				}
 				return 6000
 			}},
+			{Name: "far_vertex", NumCases: func(t string) int {
+				if t == "thorough" {
+					return 200000
+				}
+				return 8000
+			}},
 			{Name: "enumerate", NumCases: func(t string) int {
 				if t == "thorough" {
 					return 16*16*16 + 16*16*16*16
@@ -49,7 +55,7 @@ func init() {
 		Run: run,
 		Floors: func(t string) map[string]int64 {
 			return map[string]int64{"pt.on_vertex": 1000, "pt.on_closing_segment_of_unclosed_ring": 200, "pt.on_horizontal_edge": 500, "pt.ray_through_vertex": 1000,
-				"pt.inside_two_members": 100, "answer.inside": 1000, "answer.outside": 1000, "answer.onedge": 1000, "recv.outside": 200, "recv.not_outside": 200, "recv.self.outside": 100, "storage.rings_share_one_backing_array": 1000, "recv.self.not_outside": 100, "float.judged": 1000, "float.ray_grazes_one_ulp_edge": 1000, "float.extreme_scale": 300, "lattice.points_in_the_interior_of_an_edge": 20000, "lattice.figures_with_lattice_points_on_edges": 3000, "float.scaled_to_the_top_of_the_range": 150, "float.figure_around_the_origin": 300, "arg.*Bounds": 100}
+				"pt.inside_two_members": 100, "answer.inside": 1000, "answer.outside": 1000, "answer.onedge": 1000, "recv.outside": 200, "recv.not_outside": 200, "recv.self.outside": 100, "storage.rings_share_one_backing_array": 1000, "recv.self.not_outside": 100, "float.judged": 1000, "float.ray_grazes_one_ulp_edge": 1000, "float.extreme_scale": 300, "lattice.points_in_the_interior_of_an_edge": 20000, "lattice.figures_with_lattice_points_on_edges": 3000, "float.scaled_to_the_top_of_the_range": 150, "float.figure_around_the_origin": 300, "arg.*Bounds": 100, "far_vertex.rings": 4000, "far_vertex.points_judged": 100000}
 		},
 		Exhaustive: func(t string) bool { return false },
 	})
@@ -144,8 +150,118 @@ func run(c *core.Ctx, idx int) {
 		runLattice(c)
 	case "float":
 		runFloat(c)
+	case "far_vertex":
+		runFarVertex(c)
 	case "enumerate":
 		runEnum(c, idx)
+	}
+}
+
+// runFarVertex is the 'far_vertex' phase: a ring of a few ordinary half-integer vertices and one or
+// two vertices astronomically far away (2^54 .. 1e300: a wedge open to infinity, a half-plane written
+// as a triangle), queried at ordinary half-integer points, the ordinary vertices and points exactly
+// on the far edges where such points exist. A query point that is not exactly on an edge but within
+// 1e-6 (and 1e-9 of the smaller end) of an edge with a far end is not judged (beyond 2^54 the direction of such an edge is known to
+// float64 only to a relative 1e-16, so no evaluation in float64 can place points that close).
+func runFarVertex(c *core.Ctx) {
+	r := c.R
+	half := func() float64 { return float64(r.IntRange(-40, 40)) / 2 }
+	far := func() geom.Point {
+		h := math.Ldexp(1, r.IntRange(54, 70))
+		if r.Chance(0.6) {
+			h = math.Pow(10, r.Range(17, 300))
+		}
+		sx, sy := float64(1-2*r.Intn(2)), float64(1-2*r.Intn(2))
+		switch r.Intn(5) {
+		case 0:
+			return geom.Point{X: half(), Y: sy * h}
+		case 1:
+			return geom.Point{X: sx * h, Y: half()}
+		case 2:
+			return geom.Point{X: sx * h, Y: sy * h}
+		case 3:
+			return geom.Point{X: sx * h, Y: sy * h * 2}
+		}
+		return geom.Point{X: sx * h * r.Range(0.1, 1), Y: sy * h * r.Range(0.1, 1)}
+	}
+	n := r.IntRange(2, 5)
+	var ring geom.Path
+	for i := 0; i < n; i++ {
+		ring = append(ring, geom.Point{X: half(), Y: half()})
+	}
+	nf := 1
+	if r.Chance(0.3) {
+		nf = 2
+	}
+	isFar := map[geom.Point]bool{}
+	for i := 0; i < nf; i++ {
+		f := far()
+		isFar[f] = true
+		k := r.Intn(len(ring) + 1)
+		ring = append(ring[:k], append(geom.Path{f}, ring[k:]...)...)
+	}
+	open := append(geom.Path{}, ring...)
+	if r.Bool() {
+		ring = append(ring, ring[0])
+	}
+	polys := []geom.Polygon{{ring}}
+	var pgl geom.Polygonal = polys[0]
+	if r.Chance(0.3) {
+		pgl = geom.MultiPolygon{polys[0]}
+	}
+	// query points
+	var pts []geom.Point
+	for i := 0; i < 30; i++ {
+		pts = append(pts, geom.Point{X: float64(r.IntRange(-50, 50)) / 2, Y: float64(r.IntRange(-50, 50)) / 2})
+	}
+	for i, v := range open {
+		if isFar[v] {
+			continue
+		}
+		pts = append(pts, v)
+		// points exactly on an axis-parallel or diagonal far edge leaving this vertex
+		for _, w := range []geom.Point{open[(i+1)%len(open)], open[(i+len(open)-1)%len(open)]} {
+			if !isFar[w] {
+				continue
+			}
+			k := float64(r.IntRange(1, 20)) / 2
+			switch {
+			case w.X == v.X:
+				pts = append(pts, geom.Point{X: v.X, Y: v.Y + math.Copysign(k, w.Y)})
+			case w.Y == v.Y:
+				pts = append(pts, geom.Point{X: v.X + math.Copysign(k, w.X), Y: v.Y})
+			}
+		}
+	}
+	detail := map[string]interface{}{"polygonal": gen.Dump(pgl.(geom.Geom))}
+	var judged []geom.Point
+	for _, p := range pts {
+		skip := false
+		for i := range open {
+			a, b := open[i], open[(i+1)%len(open)]
+			if !isFar[a] && !isFar[b] {
+				continue
+			}
+			// clear margin: 1e-6, and 1e-9 of the smaller end of the edge (an edge with BOTH ends far
+			// away is placed by its float64 coordinates only to within 1e-16 of their size)
+			inf := func(q geom.Point) float64 { return math.Max(math.Abs(q.X), math.Abs(q.Y)) }
+			if d := exact.DistPointSeg(gen.EP(p), gen.EP(a), gen.EP(b)); d > 0 && d < math.Max(1e-6, 1e-9*math.Min(inf(a), inf(b))) {
+				skip = true
+			}
+		}
+		if skip {
+			c.Count("far_vertex.point_within_1e-6_of_a_far_edge_skipped")
+			continue
+		}
+		judged = append(judged, p)
+	}
+	c.Count("far_vertex.rings")
+	c.Add("far_vertex.points_judged", int64(len(judged)))
+	nIn, nEdge := judgeAll(c, pgl, polys, judged, detail, "far_vertex")
+	if nIn > 0 && nEdge > 0 {
+		h := core.NewHasher()
+		gen.HashGeom(h, polys[0])
+		c.Nontrivial(h.Sum())
 	}
 }
 
